@@ -36,6 +36,15 @@ def decoder_cases():
     return L
 
 
+FNV0 = 14695981039346656037
+
+
+def fnv(bs, h):
+    for c in bs:
+        h = ((h ^ c) * 1099511628211) & 0xFFFFFFFFFFFFFFFF
+    return h
+
+
 def files(run, rng, quick):
     """valid files of several sizes from the real exporter"""
     sessions = []
@@ -109,36 +118,57 @@ def check(run):
     # the schema model of CdnsReader (header + read_block loop, Model.File.readBlock – the subject of C05.truncated_blocks) on the same cuts
     mlines = ["blkc " + " ".join(l.split()[2:]) for l in lines]
     manswers = G.run_driver(mlines) if run.driver_ok else [None] * len(lines)
+    # answers are digests "<length>:<fnv64>" of the full answer string; the expected digests are computed incrementally per file
+    digests = {}
+    def expected_digests(data, pre, blocks):
+        key = id(data)
+        if key not in digests:
+            st = fnv(b"I " + pre.encode(), FNV0)
+            ln = 2 + len(pre)
+            states = [(st, ln)]                     # after k complete blocks
+            for bl in blocks:
+                st = fnv(b" " + bl.encode(), st); ln += 1 + len(bl)
+                states.append((st, ln))
+            digests[key] = states
+        return digests[key]
+    def dg(state, suffix):
+        st, ln = state
+        return "%d:%016x" % (ln + len(suffix), fnv(suffix.encode(), st))
     for (data, pre, blocks, hdr_end, ends, chunk), ans, mans in zip(metas, answers, manswers):
-        if mans is not None and ans is not None and not ans.startswith("CRASH"):
-            for n, g, m in zip(chunk, ans.split(" @@ "), mans.split(" @@ ")):
-                run.count("file-level cuts: schema model compared")
-                if m[2:] != g[2:] and len(run.model_fail) < 5:
-                    run.model_fail.append(("blkc %s %d" % (data.hex()[:3000], n), {"correspondence": "Model.File.readBlock loop vs CdnsReader on a truncated file",
-                                           "cut": n, "file bytes": len(data), "model": m[:600], "library": g[:600]}))
-    for (data, pre, blocks, hdr_end, ends, chunk), ans in zip(metas, answers):
         if ans is None or ans.startswith("CRASH"):
             if "cut:crash" not in seen:
                 seen.add("cut:crash"); run.spec_fail.append(("cut:crash", "file of %d bytes, cuts %s" % (len(data), chunk[:5]), {"implementation": (ans or "")[:300], "file": data.hex()[:4000]}))
             continue
+        states = expected_digests(data, pre, blocks)
         got = ans.split(" @@ ")
-        for n, g in zip(chunk, got):
+        mgot = mans.split(" @@ ") if mans is not None else [None] * len(got)
+        for n, g, m in zip(chunk, got, mgot):
             run.case(("file%d" % len(data), n), 0 < n < len(data))
             run.count("file-level cuts")
             if n >= len(data):
-                exp = " ".join([pre] + blocks + ["EOF"])
+                exp = dg(states[len(blocks)], " EOF")
             elif n < hdr_end:
-                exp = " E:end"
+                exp = "%d:%016x" % (8, fnv(b"I  E:end", FNV0))
             else:
-                exp = " ".join([pre] + [b for b, e in zip(blocks, ends) if e <= n] + ["E:end"])
-            if g[2:] != exp:
+                k = sum(1 for e in ends if e <= n)
+                exp = dg(states[k], " E:end")
+            if g != exp:
                 where = "header" if n < hdr_end else ("block-boundary" if n in ends else ("window" if any(abs(n - k * WIN) <= 16 for k in range(1, 6)) else "inside"))
                 sig = "cut:" + where
                 if sig not in seen:
                     seen.add(sig)
+                    full = G.run_rd(["rd s %s %d" % (data.hex(), n)])[0]
                     run.spec_fail.append((sig, "file of %d bytes cut at %d" % (len(data), n),
-                                          {"cut": n, "file_hex": data.hex() if len(data) < 3000 else data.hex()[:3000] + "…", "implementation": g[:600], "expected": exp[:600],
+                                          {"cut": n, "file_hex": data.hex() if len(data) < 3000 else data.hex()[:3000] + "…", "implementation": (full or "")[:600],
+                                           "expected": "preamble + the %d blocks ending at or before the cut + %s" % (sum(1 for e in ends if e <= n), "EOF" if n >= len(data) else "E:end"),
                                            "block ends": ends[:20], "header end": hdr_end}))
+            if m is not None:
+                run.count("file-level cuts: schema model compared")
+                if m != g and len(run.model_fail) < 5:
+                    mfull = G.run_driver(["blkc1 %s %d" % (data.hex(), n)])[0]
+                    lfull = G.run_rd(["rd s %s %d" % (data.hex(), n)])[0]
+                    run.model_fail.append(("blkc1 %s %d" % (data.hex()[:3000], n), {"correspondence": "Model.File.readBlock loop vs CdnsReader on a truncated file",
+                                           "cut": n, "file bytes": len(data), "model": (mfull or "")[:600], "library": (lfull or "")[:600]}))
 
 
 def replay(run, data):
